@@ -273,6 +273,10 @@ def op_stmts(op, pyproject: bool):
     if t == "M":
         # in-place edit of whatever object the attribute holds (the sys.argv[1:] = [...] of distutils-style code)
         return ["_v = getattr(_M[%r], %r, None)\nif isinstance(_v, list):\n    _v[:] = [x for x in _v if not (isinstance(x, str) and x.startswith('c13mut'))] + ['c13mut%d']\nelif _v is not None:\n    try:\n        _v.c13content = %d\n    except Exception:\n        pass" % (op[1], op[2], op[3], op[3])]
+    if t == "F":
+        # the script registers a finder of its own (one that never finds anything)
+        return ["class _C13Finder(object):\n    def find_spec(self, fullname, path=None, target=None):\n        return None\n"
+                "_f = _C13Finder()\n_f.c13tag = %d\n%s" % (op[2], "sys.meta_path.insert(0, _f)" if op[1] else "sys.meta_path.append(_f)")]
     if t == "S":
         if op[1] == "@ROOT":
             return ["sys.path.insert(0, _ROOT)"]
@@ -519,7 +523,8 @@ def run_case(w: World, case, tmp, emit):
     for f in list(sys.meta_path):
         idx = next((i + 1 for i, o in enumerate(meta0) if o is f), None)
         if idx is None:
-            idx = 999 if type(f).__name__ == "ArchiveMetaHook" else 998
+            tag = getattr(f, "c13tag", None)
+            idx = 999 if type(f).__name__ == "ArchiveMetaHook" else (100 + tag) if isinstance(tag, int) else 998
         meta1.append(idx)
     mods1 = [(n, w.mod_kind(n, fake_root)) for n in tracked]
     mods1 = [(n, k) for n, k in mods1 if k is not None]
